@@ -766,7 +766,7 @@ impl FromStr for GCTriggerSelector {
             let min = Self::parse_size(&captures["min"])?;
             let max = Self::parse_size(&captures["max"])?;
             return Ok(Self::DynamicHeapSize(min, max));
-        } else if s.starts_with("Delegated") {
+        } else if s == "Delegated" {
             return Ok(Self::Delegated);
         }
 
